@@ -228,7 +228,10 @@ def run_shard(sink, tier, seed, shard):
     for idx in range(i0, n_trees, step):
         c = harness.make_case('c05', seed, idx, size_budget=16)
         for j, o in enumerate(harness.opts_for(idx, k, opts)):
-            sink.guard('harness', 'case', dict(c.ident(), opt=repr(o)), lambda: check_case(sink, c, o, seed, idx * 16 + j))
+            with harness.reentrant(idx % 8 == 0):  # an eighth of the cases with callbacks that call back into optree
+                sink.guard('harness', 'case', dict(c.ident(), opt=repr(o)), lambda: check_case(sink, c, o, seed, idx * 16 + j))
+            if idx % 8 == 0:
+                sink.count('cases-with-re-entrant-callbacks')
 
 
 def finalize(sink, tier, seed):
